@@ -125,6 +125,8 @@ class Ctx:
         self.decisions = []
         self.arity = []
         self.pc = []
+        self.pc_light = []
+        self.heavy_mode = False
         self.pc_ids = set()
         self.names = {}
         self.heap = {}
@@ -139,6 +141,7 @@ class Ctx:
         self.axiom_tags = set()
         self.dead = False
         self.call_log = []
+        self.emit_from = 0
 
     # -- names -----------------------------------------------------------
     def fresh_name(self, base):
@@ -150,7 +153,10 @@ class Ctx:
         return z3.Const(self.fresh_name(base), sort)
 
     # -- path condition ----------------------------------------------------
-    def assume(self, f):
+    def assume(self, f, heavy=False):
+        """add an assumption.  heavy=True marks facts (fold axioms, loop invariants)
+        that are left out of the cheap path-feasibility checks -- leaving
+        assumptions out can only keep more paths alive, never lose one"""
         if isinstance(f, bool):
             f = z3.BoolVal(f)
         f = simp(f)
@@ -163,6 +169,8 @@ class Ctx:
             return
         self.pc_ids.add(i)
         self.pc.append(f)
+        if not (heavy or self.heavy_mode):
+            self.pc_light.append(f)
 
     def choose(self, n, label=''):
         if self.pos < len(self.prefix):
@@ -179,7 +187,7 @@ class Ctx:
         return d
 
     def feasible(self, extra):
-        return self.engine.feasible(self.pc, extra)
+        return self.engine.feasible(self.pc_light, extra)
 
     def branch(self, cond, label=''):
         """fork on a z3 Bool; returns python bool taken on this path"""
@@ -230,7 +238,14 @@ class Ctx:
         return v
 
     # -- obligations -------------------------------------------------------
+    def add_reach(self, label):
+        if self.pos < self.emit_from:
+            return
+        self.obligs.append(Obligation(('reach', label), self.pc, z3.BoolVal(True), {}, {}, expect_sat=True))
+
     def oblige(self, kind, clause, goal, info=None, observables=None):
+        if self.pos < self.emit_from:
+            return      # owned by the task that explores the leftmost path through this prefix
         if isinstance(goal, bool):
             goal = z3.BoolVal(goal)
         goal = simp(goal)
@@ -418,6 +433,32 @@ class Engine:
             name in BUILTIN_EXC_BASES or self.repo.find_class(name) is not None)
 
     # -- driver ------------------------------------------------------------
+    def explore_one(self, run_path, prefix):
+        """run exactly one path: `prefix` then first alternatives.  Returns
+        (obligations owned by this path, problems, sibling prefixes to explore)"""
+        ctx = Ctx(self, prefix)
+        ctx.emit_from = len(prefix)
+        self.stats['paths'] += 1
+        problems = []
+        try:
+            run_path(ctx)
+        except Infeasible:
+            self.stats['infeasible'] += 1
+        except PathEnd:
+            pass
+        except Unsupported as e:
+            problems.append({'kind': 'out-of-subset', 'msg': str(e),
+                             'line': getattr(e.node, 'lineno', None), 'trace': list(ctx.trace)})
+        except AnchorLost as e:
+            problems.append({'kind': 'anchor-lost', 'msg': str(e)})
+        except RecursionError:
+            problems.append({'kind': 'engine', 'msg': 'recursion limit'})
+        siblings = []
+        for j in range(len(prefix), len(ctx.decisions)):
+            for d in range(ctx.decisions[j] + 1, ctx.arity[j]):
+                siblings.append(ctx.decisions[:j] + [d])
+        return list(ctx.obligs), problems, siblings
+
     def explore(self, run_path):
         """enumerate all paths; run_path(ctx) executes one path.  Returns
         (obligations, problems)"""
